@@ -809,8 +809,29 @@ func (v *ValGen) Type(t *TypeRecipe) any {
 		case 1:
 			return "anystr"
 		case 2:
+			// callers hand over lists whose items are not in canonical form yet
+			switch s.Choose("v.anyrep", 5) {
+			case 1:
+				return []any{int(1), "two", float32(3.5)}
+			case 2:
+				return []any{uint8(7), map[string]any{"k": int32(3)}, []any{int16(2), "x"}}
+			case 3:
+				return []int{1, 2, 3}
+			case 4:
+				if v.Corrupt {
+					// the last item is not an acceptable value: the call is rejected half-way
+					return []any{int(1), []any{uint16(5)}, nil}
+				}
+				return []any{int(1), []any{uint16(5)}, int8(-3)}
+			}
 			return []any{int64(1), "two", 3.5}
 		case 3:
+			switch s.Choose("v.anyrep", 3) {
+			case 1:
+				return map[string]any{"a": int(1), "b": []any{true, int8(2)}, "c": map[string]any{"d": float32(0.5)}}
+			case 2:
+				return map[any]any{"a": uint(1), int64(2): []any{int(3)}}
+			}
 			return map[string]any{"a": int64(1), "b": []any{true}}
 		}
 		return 2.25
